@@ -102,17 +102,13 @@ fn key_positions(name: &[u8], argc: usize) -> Vec<usize> {
 }
 const UNORDERED: &[&[u8]] = &[b"SMEMBERS", b"SUNION", b"SINTER", b"SDIFF", b"HKEYS", b"HVALS", b"HGETALL", b"KEYS"];
 /// commands not used in twin pairs: random outcomes, whole-database effects, server-killing inputs
-fn twin_ok(c: &[Vec<u8>], db: i64) -> bool {
+fn twin_ok(c: &[Vec<u8>], _db: i64) -> bool {
     let name = c[0].to_ascii_uppercase();
     match &name[..] {
         b"RANDOMKEY" | b"SRANDMEMBER" | b"SPOP" | b"FLUSHDB" | b"FLUSHALL" | b"DBSIZE" => false,
         // a positive remaining time is clock-dependent and an EVAL reply is not canonicalised by command name:
         // TTL / PTTL run inside scripts only on keys without a deadline (mc- cases) and in the stored witness
         b"TTL" | b"PTTL" => false,
-        // execute_database works on database 0 whatever the script's database is
-        b"KEYS" => db == 0,
-        // -(i64::MIN) panics in the executor (finding lua-decrby-min)
-        b"DECRBY" => !(c.len() > 2 && c[2] == b"-9223372036854775808"),
         // HGETALL flat pairs cannot be canonicalised after table.sort
         _ => true,
     }
@@ -176,7 +172,7 @@ fn dump_pair(conn: i64, ops: &mut Vec<Vec<Tok>>, used: &[Vec<u8>], db0: bool) {
             }
         }
     }
-    if db0 { ops.push(note_op(&[b"dump"])); ops.push(cmd_op(conn, &[b"KEYS", b"a:*"])); ops.push(cmd_op(conn, &[b"KEYS", b"b:*"])); }
+    let _ = db0; ops.push(note_op(&[b"dump"])); ops.push(cmd_op(conn, &[b"KEYS", b"a:*"])); ops.push(cmd_op(conn, &[b"KEYS", b"b:*"]));
     ops.push(cmd_op(conn, &[b"KEYS", b"*"]));
     ops.push(cmd_op(conn, &[b"DBSIZE"]));
 }
@@ -260,7 +256,9 @@ fn simple_call(r: &mut Rng, keys: &mut Vec<Vec<u8>>) -> Vec<E> {
         12 => vec![s(b"NOSUCHCMD"), k(r, keys)],
         13 => vec![s(b"GET")],
         14 => if r.chance(1, 2) { vec![s(b"APPEND"), k(r, keys), s(b"zz")] } else { vec![s(if r.chance(1, 2) { b"TTL" } else { b"PTTL" }), k(r, keys)] },
-        _ => vec![s(b"TYPE"), k(r, keys)],
+        _ => match r.below(6) { 0 => vec![s(b"DBSIZE")], 1 => vec![s(b"KEYS"), s(*r.pick(&[&b"k1"[..], b"h?", b"zz*", b"l[1]"]))], 2 => vec![s(b"FLUSHDB")],
+                                3 => vec![s(b"DECRBY"), k(r, keys), s(b"-9223372036854775808")], 4 => vec![s(b"EXPIRE"), k(r, keys), s(*r.pick(&[&b"0"[..], b"-1", b"x"]))],
+                                _ => vec![s(b"TYPE"), k(r, keys)] },
     }
 }
 fn multi_case(r: &mut Rng, id: usize) -> Case {
@@ -468,9 +466,6 @@ fn command_class(c: &[Vec<u8>]) -> Option<&'static str> {
             if o.iter().any(|x| x == b"GET" || x == b"KEEPTTL") { Some("lua-set-options") }
             else if o.iter().any(|x| x == b"NX") && o.iter().any(|x| x == b"XX") { Some("lua-set-options") } else { None }
         }
-        b"EXPIRE" => match c.get(2).and_then(|a| std::str::from_utf8(a).ok()).and_then(|t| t.parse::<i64>().ok()) { Some(n) if n <= 0 => Some("lua-expire-nonpositive"), _ => None },
-        b"TTL" => Some("lua-ttl-reply"),
-        b"RENAMENX" => Some("lua-renamenx-is-rename"),
         b"PING" => Some("lua-ping-arity"),
         b"DBSIZE" | b"FLUSHDB" | b"FLUSHALL" | b"RANDOMKEY" => Some("lua-arity-unchecked"),
         b"XRANGE" | b"XREVRANGE" if c.len() != 4 && c.len() != 6 => Some("lua-stream-options"),
@@ -486,7 +481,7 @@ fn std_view(v: &V) -> V {
 fn sort_bulks(v: V) -> V {
     match v { V::Array(mut l) => { l.sort_by(|a, b| match (a, b) { (V::Bulk(x), V::Bulk(y)) => x.cmp(y), _ => std::cmp::Ordering::Equal }); V::Array(l) } x => x }
 }
-const STATE_CLASSES: &[&str] = &["lua-lossy", "lua-set-options", "lua-expire-nonpositive", "lua-renamenx-is-rename", "lua-stream-options"];
+const STATE_CLASSES: &[&str] = &["lua-lossy", "lua-set-options", "lua-stream-options"];
 
 pub fn judge(c: &Case, outs: &[Vec<Tok>]) -> Vec<String> {
     let mut fails = vec![];
